@@ -624,7 +624,7 @@ def run(ctx: Ctx):
     # round 4: determinisations with more than 128 subset states
     many_subsets_family(ctx)
     # round 4: the mutable-automata option — sequences of calls on ONE object built from plain / shared containers
-    mutable_option_family(ctx, ctx.budget(300, 6000))
+    mutable_option_family(ctx, ctx.budget(300, 3000))
 
 
 def search(ctx: Ctx):
